@@ -1,9 +1,9 @@
 (* C10 — shared codecs and schema caches are safe for concurrent use.
    Only statements, closed by [exact lemma], with Print Assumptions beneath. *)
 From Coq Require Import String List NArith Bool.
-From J5V.model Require Import Conc ConcKey ConcSites ConcCorr ConcRace ConcStatement ConcState.
+From J5V.model Require Import Conc ConcKey ConcSites ConcCorr ConcRace ConcStatement ConcState ConcRW.
 From J5V.gen Require ConcGen ConcStateGen.
-From J5V.proofs Require Import ConcProofs ConcLeafProofs ConcInvProofs ConcTermProofs ConcMainProofs ConcRetProofs ConcRaceProofs ConcFullProofs ConcKeyProofs.
+From J5V.proofs Require Import ConcProofs ConcLeafProofs ConcInvProofs ConcTermProofs ConcMainProofs ConcRetProofs ConcRaceProofs ConcFullProofs ConcKeyProofs ConcRWProofs.
 Import ListNotations.
 Local Open Scope N_scope.
 
@@ -482,3 +482,39 @@ Example C10_keyed_injective_example :
   results (krun HitCheck (fun n => n + 7) Guarded 3 col_graph col_calls (sched_01 ++ [1; 1]%nat))
     = [[ROk (UNode 9 [UNode 11 []])]; [ROk (UNode 10 [])]].
 Proof. split; [intros a b H; apply (N.add_cancel_r a b 7); exact H|vm_compute; reflexivity]. Qed.
+
+(* ---- no deadlock on the cache's own lock: acquisitions are never nested --------------------- *)
+(* The lock operations of every exported method of *SchemaCache, read off the regenerated token
+   tables (calls into other methods of the table spliced in, deferred unlocks at the end), form a
+   sequence of complete critical sections: the lock is never acquired — for reading or writing —
+   by a call that already holds it.  Today: Schema = [Lock; Unlock]. *)
+Theorem C10_lock_acquisitions_not_nested : lock_programs_flat ConcGen.cache_methods = true.
+Proof. exact code_lock_programs_flat. Qed.
+Print Assumptions C10_lock_acquisitions_not_nested.
+
+(* why that is the condition: over a model of Go's sync.RWMutex (a goroutine blocked in Lock()
+   holds back new readers; sync.Mutex = the write half) goroutines running such programs can
+   always move on while any of them has an operation left — every schedule, any number of
+   goroutines, any mix of read and write sections *)
+Theorem C10_flat_lock_programs_no_deadlock : forall progs sched,
+  forallb flat progs = true -> rw_deadlocked (rw_run progs sched) = false.
+Proof. exact flat_no_deadlock. Qed.
+Print Assumptions C10_flat_lock_programs_no_deadlock.
+
+(* and a nested read acquisition deadlocks: a cache hit served by a fast path `built` (RLock) that
+   calls an accessor `Package` (RLock again), while a miss reaches Lock() in between — after the
+   schedule [0;1;0] no goroutine can ever move again; the token table of that shape is rejected by
+   the check above (the seeded change C10-E; on the real code the goroutine rounds of run_conc
+   report the blocked goroutines with a deadline) *)
+Theorem C10_nested_rlock_deadlock_refuted :
+  rw_deadlocked (rw_run nested_progs [0; 1; 0]%nat) = true /\
+  (forall more, rw_run nested_progs ([0; 1; 0]%nat ++ more) = rw_run nested_progs [0; 1; 0]%nat) /\
+  rw_finished (rw_run nested_progs [0; 0; 0; 0; 1; 1]%nat) = true.
+Proof. exact nested_rlock_deadlocks. Qed.
+Print Assumptions C10_nested_rlock_deadlock_refuted.
+
+Example C10_nested_rlock_table_rejected :
+  lock_programs_flat nested_rlock_table = false /\
+  option_map (fun f => lock_program (lock_fuel ConcGen.cache_methods) ConcGen.cache_methods (snd f))
+             (find_fn ConcGen.cache_methods "Schema") = Some (Some [LLock; LUnlock]).
+Proof. split; [exact (proj2 nested_table_programs)|exact code_schema_program]. Qed.
